@@ -542,7 +542,15 @@ func (g *gen) rawExpr(k kind, depth int, class string) string {
 					}
 					return "pathFor(" + g.expr(kStr, depth-1, "go-helper-arg") + ")"
 				}
-				h := []string{"upcase", "downcase", "capitalize", "pluralize", "singularize", "camelize", "dasherize", "underscore", "ordinalize"}[g.intn("infl", 0, 8)]
+				if g.pct("envhelper", 15) {
+					// the process environment is the harness's (TestMain sets VERIF_ENV_A and never sets VERIF_ENV_MISSING)
+					g.feat("env_helper")
+					if g.pct("envor", 60) {
+						return `envOr("VERIF_ENV_MISSING", ` + g.expr(kStr, depth-1, "go-helper-arg") + ")"
+					}
+					return `env("VERIF_ENV_A")`
+				}
+				h := []string{"upcase", "downcase", "capitalize", "pluralize", "singularize", "camelize", "dasherize", "underscore", "ordinalize", "camelize_down_first", "jsEscape", "htmlEscape"}[g.intn("infl", 0, 11)]
 				return h + "(" + g.expr(kStr, depth-1, "go-helper-arg") + ")"
 			}
 			g.feat("method_call")
@@ -1663,6 +1671,8 @@ func (g *gen) failingPiece() {
 		{"member-of-unknown-identifier", "zq.Name"},
 		{"index-of-unknown-identifier", "zq[0]"},
 		{"deep-method-on-unknown-identifier", "zq.a.b(1)"},
+		{"env-of-unset-variable", `env("VERIF_ENV_MISSING")`},
+		{"json-of-func", "json(pv)"},
 		// operations on literals only (nothing of the context enters)
 		{"literal-division-by-zero", "10 / 0"},
 		{"literal-regex-does-not-compile", `"abc" ~= "("`},
